@@ -344,6 +344,12 @@ class ModelLoader(object):
         schema_unames = [name.upper() for name in metaclass.attribute_names]
         inst_unames = [name.upper() for name in stmt.names]
         
+        if len(stmt.names) != len(stmt.values):
+            raise ParsingException("%s:%d:%d names but %d values" % (stmt.filename,
+                                                                    stmt.lineno,
+                                                                    len(stmt.names),
+                                                                    len(stmt.values)))
+        
         if set(inst_unames) - set(schema_unames):
             logger.warning('%s:%d:schema mismatch' % (stmt.filename, stmt.lineno))
             
